@@ -86,7 +86,8 @@ CHECKS = {
              "over every raw value of its wire type through decode/encode and through the reader/writer path in both byte orders; key-frame times over all 65536 "
              "raws x 41 (quick) / 1026 (thorough) durations; the numpy variant over the full arange. Clauses: inverse, monotonic, endpoints, exact zero.",
         note="Quantisers constructed lazily inside function bodies are not seen by the walk; classes overriding the quantisation arithmetic are held to inverse, "
-             "monotonic and the lower end only; duration 0.0 checked for totality only; all clauses run in both reader modes (pod=False/True) incl. vector wrappers through the wire path; two open known findings (PackedTERotation raw -32768, mesh normals have no exact zero)."),
+             "monotonic and the lower end only; duration 0.0 checked for totality only; key-frame time ends additionally checked for 2271 durations (every 1/8 s up to 64 s, every whole second up to "
+             "600 s, every F32 with <= 8 mantissa bits) at the end and middle raws; all clauses run in both reader modes (pod=False/True) incl. vector wrappers through the wire path; two open known findings (PackedTERotation raw -32768, mesh normals have no exact zero)."),
     "C13": dict(
         category="exploration", design_ref="DESIGN.md §4 C13",
         technique="bounded-exhaustive differential enumeration: all 2^11 section-flag combinations x object kinds, per-section content variants, and byte mutations "
@@ -98,7 +99,8 @@ CHECKS = {
         note="Domain = what the template's own serialize emits plus byte mutations of it; a mutated payload is judged only if the template decodes it and re-encodes "
              "it to itself; PCodes outside the enum are counted, not asserted; enums by value, dataclasses by fields, lazy proxies forced, floats bit-exact; decode "
              "histories of depth 3 (decode, in-place edit of the result, decode again by all four decoder paths on the same, twin and shifted payloads), one forked "
-             "process per history; copy.deepcopy trusted."),
+             "process per history; encode histories (single-member out-of-domain edits per template member plus bad values for 4 other subfield serializers, each "
+             "probe-confirmed to raise after partial output, up to 3 failures before a check); copy.deepcopy trusted."),
     "C18": dict(
         category="model_checking", design_ref="DESIGN.md §4 C18",
         technique="explicit-state BFS over the real FilteringMessageLogger plus bounded-exhaustive enumeration of filter expression trees, leaf comparisons and export/import cases",
@@ -194,7 +196,8 @@ CHECKS = {
              "length 3 (4 thorough) through the real IPCInterceptionAddon._pump_callbacks counting resume() calls.",
         note="A taken, never-resumed flow stays with its taker; faults are Python exceptions at the listed points; pickling/OS-queue failure, a real mitmproxy master, TLS "
              "and sockets are out of scope; mitmproxy.ctx.master stubbed for replay/shutdown; ownership is per flow (first successful take() until the one successful resume()); "
-             "includes the owner of a taken flow's cap data (region/session) being dropped and garbage-collected before release."),
+             "includes the owner of a taken flow's cap data (region/session) being dropped and garbage-collected before release; wrapper-cap requests: an addon's "
+             "rewrite of path/query/URL must survive the event manager's own redirect, in both the 307 and the URL-rewrite strategy."),
     "C17": dict(
         category="model_checking", design_ref="DESIGN.md §4 C17",
         technique="explicit-state BFS of event-queue poll rounds through the real MITMProxyEventManager.pump_proxy_event (hmc.explore.bfs, canonical-state dedup, "
